@@ -18,13 +18,16 @@ import (
 	"hash/fnv"
 	mrand "math/rand"
 	"runtime/debug"
+	"sort"
 	"strings"
 	"testing"
 
 	"github.com/ethereum/go-ethereum/common"
 	"github.com/ethereum/go-ethereum/core/rawdb"
+	"github.com/ethereum/go-ethereum/core/types"
 	"github.com/ethereum/go-ethereum/crypto"
 	"github.com/ethereum/go-ethereum/ethdb/memorydb"
+	"github.com/ethereum/go-ethereum/trie/trienode"
 	"pgregory.net/rapid"
 	vs "verif.local/kit/stat"
 )
@@ -133,7 +136,7 @@ func c08Honest(t pgFataler, st *vs.S, w *pgWorld, key []byte, label string) [][]
 		t.Fatalf("honest proof for absent key %x returned value %x\n%s", key, val, c08WorldString(w))
 	}
 	// the same proof through the independent reference walk
-	rv, reason, rerr := pgRefWalk(w.Ref.Root, key, func(h [32]byte) []byte {
+	rv, reason, rerr := pgRefWalk([32]byte(w.Root), key, func(h [32]byte) []byte {
 		b, _ := db.Get(h[:])
 		return b
 	})
@@ -149,7 +152,8 @@ func c08Honest(t pgFataler, st *vs.S, w *pgWorld, key []byte, label string) [][]
 	c.Classf("H:%s", label)
 	c.Classf("H-end:%s", reason)
 	c.Classf("W:%s", strings.SplitN(w.Class, "/", 2)[0])
-	nt := !present && len(w.Ents) > 0 // ends in a short-node mismatch or a nil branch slot
+	// absent: ends in a short-node mismatch or a nil branch slot; or the value sits in a branch's value slot
+	nt := (!present && len(w.Ents) > 0) || reason == "found-branch-value"
 	c.NonTrivial(nt, c08Desc(w, key, reason))
 	c.Sample(nt, func() any {
 		return map[string]any{"world": w.Class, "entries": len(w.Ents), "key": fmt.Sprintf("%x", key), "class": label,
@@ -385,10 +389,277 @@ func TestVerifC08TinyExhaustive(t *testing.T) {
 	st.Exhaustive(fmt.Sprintf("%d tries (all non-empty subsets of a 6-key universe x 3 value sizes) x %d keys x every sub-bag of the honest proof", worlds, len(probes)))
 }
 
+// ---- variable-length keys: keys that are prefixes of one another (branch value slots) ----
+//
+// kit/reftrie does not model prefix keys, so these worlds carry no reference node
+// set: the oracle is the plain model map, the independent reference walk still
+// applies (it reads the 17th branch item), and "genuine nodes" are the union of the
+// proofs the trie produces for all its keys.
+
+var c08PrefixClasses = []string{"ab", "nibbly", "words", "chain"}
+
+// c08DrawPrefixEntries draws distinct keys of mixed lengths with many prefix pairs.
+func c08DrawPrefixEntries(rt *rapid.T, rnd *mrand.Rand) (class string, ents []pgKV) {
+	class = rapid.SampledFrom(c08PrefixClasses).Draw(rt, "prefixClass")
+	id := func(b []byte) string { return string(b) }
+	var keys [][]byte
+	switch class {
+	case "ab": // alphabet {a,b}, lengths 0..4 including the empty key
+		g := rapid.SliceOfN(rapid.SampledFrom([]byte{'a', 'b'}), 0, 4)
+		keys = rapid.SliceOfNDistinct(g, 1, 20, id).Draw(rt, "keys")
+	case "nibbly": // nibble-level collisions, lengths 0..3
+		g := rapid.SliceOfN(rapid.SampledFrom(pgAlphabet), 0, 3)
+		keys = rapid.SliceOfNDistinct(g, 1, 24, id).Draw(rt, "keys")
+	case "words":
+		words := []string{"", "d", "do", "dog", "doge", "dogglesworth", "dot", "horse", "hors", "h", "somethingveryoddindeedthis is", "somethingveryodd"}
+		idx := rapid.SliceOfNDistinct(rapid.IntRange(0, len(words)-1), 1, len(words), rapid.ID[int]).Draw(rt, "words")
+		for _, i := range idx {
+			keys = append(keys, []byte(words[i]))
+		}
+	default: // chains k, k+x, k+x+y, ... over 1..3 random bases (incl. 32-byte bases)
+		seen := map[string]bool{}
+		for b := 1 + rnd.Intn(3); b > 0; b-- {
+			k := make([]byte, []int{0, 1, 2, 31, 32}[rnd.Intn(5)])
+			rnd.Read(k)
+			for l := 1 + rnd.Intn(6); l > 0; l-- {
+				if !seen[string(k)] {
+					seen[string(k)] = true
+					keys = append(keys, append([]byte{}, k...))
+				}
+				ext := make([]byte, 1+rnd.Intn(2))
+				rnd.Read(ext)
+				k = append(append([]byte{}, k...), ext...)
+			}
+		}
+	}
+	for _, k := range keys {
+		v := make([]byte, pgValLens[rnd.Intn(len(pgValLens))])
+		rnd.Read(v)
+		ents = append(ents, pgKV{K: k, V: v})
+	}
+	return class, ents
+}
+
+// c08BuildPrefixWorld builds a trie over arbitrary distinct keys (Ref == nil, KeyLen == -1).
+func c08BuildPrefixWorld(class string, ents []pgKV, rnd *mrand.Rand, reopen bool) (*pgWorld, error) {
+	w := &pgWorld{Class: class, KeyLen: -1, Model: map[string][]byte{}, Reopened: reopen}
+	w.Ents = append(w.Ents, ents...)
+	sort.Slice(w.Ents, func(i, j int) bool { return bytes.Compare(w.Ents[i].K, w.Ents[j].K) < 0 })
+	for _, e := range w.Ents {
+		if _, dup := w.Model[string(e.K)]; dup || len(e.V) == 0 {
+			return nil, fmt.Errorf("generator produced bad or duplicate entry %x", e.K)
+		}
+		w.Model[string(e.K)] = e.V
+	}
+	db := newTestDatabase(rawdb.NewMemoryDatabase(), rawdb.HashScheme)
+	tr := NewEmpty(db)
+	order := make([]int, len(w.Ents))
+	for i := range order {
+		order[i] = i
+	}
+	if rnd != nil {
+		rnd.Shuffle(len(order), func(i, j int) { order[i], order[j] = order[j], order[i] })
+	}
+	for _, i := range order {
+		if err := tr.Update(w.Ents[i].K, w.Ents[i].V); err != nil {
+			return nil, err
+		}
+	}
+	w.Root = tr.Hash()
+	if reopen {
+		root, nodes := tr.Commit(false)
+		if nodes != nil {
+			if err := db.Update(root, types.EmptyRootHash, trienode.NewWithNodeSet(nodes)); err != nil {
+				return nil, err
+			}
+		}
+		nt, err := New(TrieID(root), db)
+		if err != nil {
+			return nil, err
+		}
+		tr = nt
+	}
+	w.Tr = tr
+	return w, nil
+}
+
+// c08PrefixKeys: every present key, every proper prefix of a present key, present keys
+// extended by one byte, the empty key and a random key.
+func c08PrefixKeys(w *pgWorld, rnd *mrand.Rand) (keys [][]byte, labels []string) {
+	seen := map[string]bool{}
+	add := func(k []byte, label string) {
+		if !seen[string(k)] {
+			seen[string(k)] = true
+			keys = append(keys, append([]byte{}, k...))
+			labels = append(labels, label)
+		}
+	}
+	for _, e := range w.Ents {
+		add(e.K, "present")
+	}
+	for _, e := range w.Ents {
+		for l := 0; l < len(e.K) && l <= 4; l++ {
+			add(e.K[:l], "prefix-of-present")
+		}
+		if len(e.K) > 5 {
+			add(e.K[:len(e.K)-1], "prefix-of-present")
+		}
+		add(append(append([]byte{}, e.K...), byte(rnd.Intn(2)*rnd.Intn(256))), "extension-of-present")
+	}
+	add([]byte{}, "emptykey")
+	r := make([]byte, rnd.Intn(4))
+	rnd.Read(r)
+	add(r, "random")
+	return keys, labels
+}
+
+// c08RunPrefixWorld: completeness for all keys, then the adversarial bags.
+func c08RunPrefixWorld(t pgFataler, st *vs.S, a *pgWorld, ch pgChooser, rnd *mrand.Rand) {
+	// sibling: 1..2 entries changed (value changed, entry dropped, extension/prefix key added)
+	ents := append([]pgKV{}, a.Ents...)
+	for m := 1 + ch.Intn(2); m > 0; m-- {
+		i := ch.Intn(len(ents))
+		nv := make([]byte, 1+rnd.Intn(40))
+		rnd.Read(nv)
+		switch op := ch.Intn(4); {
+		case op == 0 && len(ents) > 1:
+			ents = append(ents[:i:i], ents[i+1:]...)
+		case op == 1:
+			ents[i] = pgKV{K: ents[i].K, V: nv}
+		default:
+			k := append(append([]byte{}, ents[i].K...), byte(rnd.Intn(256)))
+			if op == 3 && len(ents[i].K) > 0 {
+				k = append([]byte{}, ents[i].K[:len(ents[i].K)-1]...)
+			}
+			dup := false
+			for _, e := range ents {
+				dup = dup || bytes.Equal(e.K, k)
+			}
+			if !dup {
+				ents = append(ents, pgKV{K: k, V: nv})
+			}
+		}
+	}
+	b, err := c08BuildPrefixWorld("sibling-of-"+a.Class, ents, rnd, false)
+	if err != nil {
+		t.Fatalf("VERIF-HARNESS-BUG: %v", err)
+	}
+	collect := func(w *pgWorld) [][]byte {
+		var ks [][]byte
+		for _, e := range w.Ents {
+			ks = append(ks, e.K)
+		}
+		db, err := pgProve(w.Tr, ks...)
+		if err != nil {
+			t.Fatalf("Prove failed: %v\n%s", err, c08WorldString(w))
+		}
+		return pgBlobs(db)
+	}
+	genA, genB := collect(a), collect(b)
+	keys, labels := c08PrefixKeys(a, rnd)
+	for i, key := range keys {
+		honest := c08Honest(t, st, a, key, labels[i])
+		if len(honest) <= 6 {
+			for x := range honest {
+				bag := append(append([][]byte{}, honest[:x]...), honest[x+1:]...)
+				c08Adversarial(t, st, a, key, bag, []string{"omit-one"}, 1)
+			}
+		}
+		w, tags, omitted := a, []string{"prefix-bag"}, 0
+		var bag [][]byte
+		for _, n := range append(append([][]byte{}, genA...), genB...) {
+			if rnd.Intn(5) != 0 {
+				bag = append(bag, n)
+			} else {
+				omitted++
+			}
+		}
+		if ch.Intn(3) == 0 {
+			bag = append(bag, pgArbitraryBlobs(rnd, genA, 3)...)
+			tags = append(tags, "arbitrary")
+		}
+		if ch.Intn(3) == 0 {
+			w = b
+			tags = append(tags, "sibling-root")
+		}
+		c08Adversarial(t, st, w, key, bag, tags, omitted)
+	}
+}
+
+func c08PrefixProp(st *vs.S) func(rt *rapid.T) {
+	return func(rt *rapid.T) {
+		rnd := mrand.New(mrand.NewSource(int64(rapid.Uint64().Draw(rt, "bulkSeed"))))
+		class, ents := c08DrawPrefixEntries(rt, rnd)
+		reopen := rapid.IntRange(0, 3).Draw(rt, "reopen") == 0
+		w, err := c08BuildPrefixWorld("prefix-"+class, ents, rnd, reopen)
+		if err != nil {
+			rt.Fatalf("VERIF-HARNESS-BUG: %v", err)
+		}
+		c08RunPrefixWorld(rt, st, w, pgRapidChooser{rt}, rnd)
+	}
+}
+
+// TestVerifC08PrefixKeys: tries whose keys are prefixes of one another (values in
+// branch value slots, the empty key), judged by the plain model map.
+func TestVerifC08PrefixKeys(t *testing.T) {
+	st := vs.New("C08", t)
+	vs.Check(t, 0.5, c08PrefixProp(st))
+}
+
+// TestVerifC08PrefixExhaustive enumerates all non-empty subsets of a 7-key universe
+// with nested prefixes (byte- and nibble-level) x 2 value sizes; every key of the
+// universe is proven in every trie and every proper sub-bag of its proof verified.
+func TestVerifC08PrefixExhaustive(t *testing.T) {
+	vs.OnlyShard0(t)
+	st := vs.New("C08", t)
+	universe := [][]byte{{}, {0x61}, {0x61, 0x61}, {0x61, 0x62}, {0x61, 0x61, 0x62}, {0x62}, {0x60}}
+	probes := append([][]byte{}, universe...)
+	probes = append(probes, []byte{0x61, 0x61, 0x61}, []byte{0x6f}, []byte{0x61, 0x62, 0x00}, []byte{0x71})
+	worlds := 0
+	for _, vl := range []int{1, 33} {
+		for mask := 1; mask < 1<<len(universe); mask++ {
+			var ents []pgKV
+			for i, k := range universe {
+				if mask&(1<<i) != 0 {
+					ents = append(ents, pgKV{K: k, V: bytes.Repeat([]byte{byte(0xa0 + i)}, vl)})
+				}
+			}
+			w, err := c08BuildPrefixWorld(fmt.Sprintf("prefix-enum%d", vl), ents, nil, false)
+			if err != nil {
+				t.Fatalf("VERIF-HARNESS-BUG: %v", err)
+			}
+			worlds++
+			for _, key := range probes {
+				honest := c08Honest(t, st, w, key, "enum")
+				if len(honest) > 5 {
+					continue
+				}
+				for sub := 0; sub < 1<<len(honest)-1; sub++ {
+					var bag [][]byte
+					for x := range honest {
+						if sub&(1<<x) != 0 {
+							bag = append(bag, honest[x])
+						}
+					}
+					c08Adversarial(t, st, w, key, bag, []string{"enum-subbag"}, len(honest)-len(bag))
+				}
+			}
+		}
+	}
+	st.Exhaustive(fmt.Sprintf("%d tries over a 7-key universe with nested prefixes (incl. the empty key) x %d keys x every proper sub-bag of the honest proof", worlds, len(probes)))
+}
+
 // FuzzVerifC08Rapid drives the rapid property from the native fuzzer's byte stream.
 func FuzzVerifC08Rapid(f *testing.F) {
 	st := vs.New("C08", f)
-	f.Fuzz(rapid.MakeFuzz(c08Prop(st)))
+	fixed, prefix := c08Prop(st), c08PrefixProp(st)
+	f.Fuzz(rapid.MakeFuzz(func(rt *rapid.T) {
+		if rapid.IntRange(0, 2).Draw(rt, "space") == 0 {
+			prefix(rt)
+		} else {
+			fixed(rt)
+		}
+	}))
 }
 
 // c08SplitBlobs cuts fuzzer bytes into length-prefixed blobs.
